@@ -115,6 +115,20 @@ def iter_in_alloc_extent(ir):
     return False
 
 
+def _enclosing_scopes(gap_cursor):
+    """For / If statements enclosing the gap, innermost first"""
+    impl = gap_cursor._impl
+    path = impl.anchor()._path
+    root = impl._root
+    par = path[:-1]
+    out = []
+    for j in range(len(par), 0, -1):
+        n = irutil.node_at(root, par[:j])
+        if isinstance(n, (LoopIR.For, LoopIR.If)):
+            out.append(n)
+    return out
+
+
 def _block_of_gap(gap_cursor):
     """(statements before the gap, statements after it, enclosing loops innermost first)"""
     from exo.core import internal_cursors as IC
@@ -172,9 +186,24 @@ def d_fission(old_ir, new_ir, call):
     a1 = _assign_targets(pre, LoopIR.Assign)
     red2 = _assign_targets(post, LoopIR.Reduce)
     iters = {l.iter for l in loops[:n_lifts]}
+    # an if that is split: does the first half write what its condition reads?
+    cond_written = False
+    wcfg = set()
+    wbuf = _assign_targets(pre, (LoopIR.Assign, LoopIR.Reduce))
+    for _, st in irutil._iter_block(list(pre), (), "body"):
+        if isinstance(st, LoopIR.WriteConfig):
+            wcfg.add((st.config.name(), st.field))
+    for sc in _enclosing_scopes(gap)[:n_lifts]:
+        if isinstance(sc, LoopIR.If):
+            for _, sub in irutil.sub_exprs(sc.cond):
+                if isinstance(sub, LoopIR.ReadConfig) and (sub.config.name(), sub.field) in wcfg:
+                    cond_written = True
+                if isinstance(sub, LoopIR.Read) and sub.name in wbuf:
+                    cond_written = True
     return {
         "pre_assigns_what_post_reduces": bool(a1 & red2),
         "pre_mentions_iter": bool(iters & _free_syms(pre)),
+        "splits_if_whose_cond_is_written": cond_written,
     }
 
 
